@@ -8,6 +8,7 @@ spec/ConnCtrl.tla models every mutex-protected read / insert of the ConnectContr
        goroutines, real handshake code on both ends, gating net.Conn / Dialer); after every step the real counts are read.
  * Oracle: a REAL count above its limit.  An overshoot that exists only in the model is never a verdict.
 """
+import os
 import _connctrl as cc
 from _bp2p_cover import fast_cover
 
@@ -16,7 +17,9 @@ RESULTS = ["checked", "rej-addr", "rej-full", "rej-ip", "rej-connecting", "rej-k
 
 
 def run(ctx):
-    fixed = any(f.get("property") == "C36" and f.get("status") == "fixed" for f in ctx._findings)
+    # VERIF_C36_FIXED=1 selects the intended-design model (used to validate a candidate patch in a worktree)
+    fixed = (any(f.get("property") == "C36" and f.get("status") == "fixed" for f in ctx._findings)
+             or os.environ.get("VERIF_C36_FIXED") == "1")
     as_coded = not fixed   # named deviation switch CheckThenAct: on while the code inserts without re-testing the limits
     # (universe, (MaxIn, MaxPerIp, MaxOut), also model-check the fine-grained design / as-coded variants)
     configs = [("ConnsQ", (2, 1, 1), True), ("ConnsQ2", (2, 1, 1), False)]
